@@ -179,8 +179,9 @@ Definition map3d {A B C} (f : sty -> A -> B -> C) (dflt : sty -> B) : list sty -
 (* ms.CopyTo(dest) for one field of type t: s = source slot, d = destination slot *)
 Fixpoint ccopy (sc : schema) (t : sty) (s d : cslot) {struct s} : cslot :=
   match t, s with
-  | TI, CI 0 _ => d                        (* optional / oneof of primitives: copied only when set *)
-  | TOne _, CR None => d                   (* oneof of messages: the switch has no case for "none"  *)
+  (* optional / oneof of primitives (TI) and an unset oneof of messages (TOne, CR None): since the fix
+     "else dest.RemoveX()" / "default: dest.orig.F = nil" the destination takes the source's state,
+     set or unset: these fall under the last case (the immutable wrapper / nil is assigned) *)
   | TOne ns, CR (Some (_, tg, r)) =>       (* ms.X().CopyTo(dest.SetEmptyX()) *)
       CR (Some (0, tg, map3d (ccopy sc) czero_slot (rowty sc (nth (tg - 1) ns 0)) r []))
   | TPtr m, CR (Some (_, tg, r)) =>
@@ -206,7 +207,8 @@ Fixpoint ccopy (sc : schema) (t : sty) (s d : cslot) {struct s} : cslot :=
           then CS (Some (a, map2d (map3d (ccopy sc) czero_slot (rowty sc n)) [] live (firstn k (dl ++ dt)),
                          skipn k (dl ++ dt)))
           else CS (Some (0, map2d (map3d (ccopy sc) czero_slot (rowty sc n)) [] live [], []))
-      | _ => CS (Some (0, map2d (map3d (ccopy sc) czero_slot (rowty sc n)) [] live [], []))
+      | _ => if Nat.eqb k 0 then CS None     (* nil[:0:0] is nil *)
+             else CS (Some (0, map2d (map3d (ccopy sc) czero_slot (rowty sc n)) [] live [], []))
       end
   | TSl _, CS None =>
       match d with
@@ -472,7 +474,7 @@ Definition vlocal (sc : schema) (o : lop) (r : vrow) : option vrow :=
   | LSetP j z => on_slot j (fun _ => VP z) r
   | LSetI j tag z => on_slot j (fun _ => VI tag z) r
   | LSetRef j tag n => on_slot j (fun _ => VR (Some (tag, vzero_row sc n))) r
-  | LEnsure j c => on_slot j (fun s => s) r
+  | LEnsure j c => on_slot j (on_vs (fun s => s)) r
   | LAppend j n _ => on_slot j (on_vs (fun s => vapp s [vnew_elem sc n])) r
   | LAppendP j zs => on_slot j (on_vs (fun s => vapp s (vprim_rows zs))) r
   | LRemoveIf j mask => on_slot j (on_vs (fun s => VS (remove_mask (vs_rows s) mask))) r
@@ -577,9 +579,13 @@ Fixpoint run_a (sc : schema) (st : astate) (p : list op) : astate * list nat :=
 Definition abs_handle (h : handle) : ahandle := mkA (h_ro h) (h_ty h) (abs_row (h_row h)).
 Definition abs_state (st : cstate) : astate := map abs_handle (s_hs st).
 
-(* ---- schemas without "copied only when set" fields ------------------------------------------------ *)
-Definition plain_ty (t : sty) : bool := match t with TI => false | TOne _ => false | _ => true end.
-Definition plain (sc : schema) : bool := forallb (forallb plain_ty) sc.
+(* ---- the copy rule BEFORE the fix ad68bfbbc (kept only for Witness.v: what the fix bought) -------------- *)
+Definition ccopy_old_field (t : sty) (s d : cslot) : option cslot :=
+  match t, s with
+  | TI, CI 0 _ => Some d        (* if ms.HasX() { dest.SetX(..) }  -- no else *)
+  | TOne _, CR None => Some d   (* switch ms.Type() { ... }        -- no default *)
+  | _, _ => None                (* otherwise as ccopy *)
+  end.
 
 (* ---- the schema instance used by the correspondence harness (pdata/pmetric + common types) -------
    row types: 0 AnyValue  1 KeyValue  2 KeyValueList  3 ArrayValue  4 bytes  5 primitive element
